@@ -42,6 +42,9 @@ def check(repo, col, tier):
     # inputs must be merged in the same order (shared with C05/C08/C11/C19)
     col.rule("R-C07-pairing", "inputs and their row indices are merged in the same order", 3)
     c08._pairing(repo, col, "R-C07-pairing")
+    # stepping by hand past the end of a stimulus passes `externals={}`: what the step applies is decided by the inputs it is GIVEN
+    col.rule("R-C07-inputs", "stimulus, voltage clamp and state clamps are applied exactly when the inputs of this step have them", 7)
+    c08.input_guards(repo, col, "R-C07-inputs")
     col.rule("R-C07-stepargs", "the step function leaves its inputs (externals, their indices, the parameters) as it received them", 3)
     step_args(repo, col, "R-C07-stepargs")
 
